@@ -504,6 +504,12 @@ def run(ck):
         "and P_auto handle it explicitly",
         "numpy.linalg.LinAlgError is a ValueError subclass"]
     G.close_pool()
+    if ck.tier == "thorough":
+        with common.LeanLock():
+            rc, out, err = common.run(["lake", "env", "leanchecker", "DS.Props.C13"], cwd=LEAN, timeout=3600)
+        ck.notes.append("leanchecker DS.Props.C13: rc=%d %s" % (rc, (out + err)[-200:]))
+        if rc != 0 and ok:
+            raise common.Broken("leanchecker rejected DS.Props.C13: " + (out + err)[-1000:])
 
 
 def replay(path):
